@@ -43,6 +43,9 @@ type helloCase struct {
 	// SharedWith: another ClientHelloID that is built on the same *Config between this connection's
 	// BuildHandshakeState and its Handshake
 	SharedWith string `json:"shared_with"`
+	// CfgMin / CfgMax: version bounds the caller left in the Config handed to UClient (0 = unset)
+	CfgMin int `json:"cfg_min"`
+	CfgMax int `json:"cfg_max"`
 }
 
 // hellos: {"cases":[{id,sni,alpn,n,omit}]} -> per connection {ev:"Hello", id, sni, k, raw (wire bytes of
@@ -74,7 +77,8 @@ func init() {
 				res[i] = map[string]any{"ev": "Error", "err": err.Error()}
 				return
 			}
-			cfg := &tls.Config{ServerName: j.c.SNI, NextProtos: j.c.ALPN, OmitEmptyPsk: j.c.Omit}
+			cfg := &tls.Config{ServerName: j.c.SNI, NextProtos: j.c.ALPN, OmitEmptyPsk: j.c.Omit,
+				MinVersion: uint16(j.c.CfgMin), MaxVersion: uint16(j.c.CfgMax)}
 			if j.c.SNI == "" {
 				cfg.InsecureSkipVerify = true
 			}
